@@ -82,8 +82,9 @@ seed18_table = wave_table(18)
 seed19_table = wave_table(19)
 seed20_table = wave_table(20)
 seed21_table = wave_table(21)
+seed22_table = wave_table(22)
 w6_count = str(len(glob.glob('seeded/C??-w6-?')))
-body = open("design_as_built.md").read().replace("@SEED3_TABLE@", seed3_table).replace("@SEED4_TABLE@", seed4_table).replace("@SEED5_TABLE@", seed5_table).replace("@SEED6_TABLE@", seed6_table).replace("@SEED7_TABLE@", seed7_table).replace("@SEED8_TABLE@", seed8_table).replace("@SEED9_TABLE@", seed9_table).replace("@SEED10_TABLE@", seed10_table).replace("@SEED11_TABLE@", seed11_table).replace("@SEED12_TABLE@", seed12_table).replace("@SEED13_TABLE@", seed13_table).replace("@SEED14_TABLE@", seed14_table).replace("@SEED15_TABLE@", seed15_table).replace("@SEED16_TABLE@", seed16_table).replace("@SEED17_TABLE@", seed17_table).replace("@SEED18_TABLE@", seed18_table).replace("@SEED19_TABLE@", seed19_table).replace("@SEED20_TABLE@", seed20_table).replace("@SEED21_TABLE@", seed21_table).replace("@W6_COUNT@", w6_count).replace("@SEED2_TABLE@", seed2_table).replace("@SEED_TABLE@", seed_table).replace("@MUTANT_TABLE@", mut_table)
+body = open("design_as_built.md").read().replace("@SEED3_TABLE@", seed3_table).replace("@SEED4_TABLE@", seed4_table).replace("@SEED5_TABLE@", seed5_table).replace("@SEED6_TABLE@", seed6_table).replace("@SEED7_TABLE@", seed7_table).replace("@SEED8_TABLE@", seed8_table).replace("@SEED9_TABLE@", seed9_table).replace("@SEED10_TABLE@", seed10_table).replace("@SEED11_TABLE@", seed11_table).replace("@SEED12_TABLE@", seed12_table).replace("@SEED13_TABLE@", seed13_table).replace("@SEED14_TABLE@", seed14_table).replace("@SEED15_TABLE@", seed15_table).replace("@SEED16_TABLE@", seed16_table).replace("@SEED17_TABLE@", seed17_table).replace("@SEED18_TABLE@", seed18_table).replace("@SEED19_TABLE@", seed19_table).replace("@SEED20_TABLE@", seed20_table).replace("@SEED21_TABLE@", seed21_table).replace("@SEED22_TABLE@", seed22_table).replace("@W6_COUNT@", w6_count).replace("@SEED2_TABLE@", seed2_table).replace("@SEED_TABLE@", seed_table).replace("@MUTANT_TABLE@", mut_table)
 body = body.replace("@THOROUGH_NOTE@", open("thorough_note.md").read().strip() if os.path.exists("thorough_note.md") else "")
 d = open("DESIGN.md").read()
 start = d.find("## A. As built")
